@@ -23,6 +23,7 @@ from guppylang_internals.definition.struct import CheckedStructDef, StructField
 from guppylang_internals.definition.common import DefId
 from guppylang_internals.compiler.core import requires_drop
 from guppylang_internals.tys.common import QuantifiedToHugrContext
+from crosshair.tracers import NoTracing
 
 lib.repo_env.assert_repo(_ty_mod)
 
@@ -39,6 +40,17 @@ XP = [TypeParam(0, "X", False, False)]
 S_GEN = CheckedStructDef(DefId.fresh(), "S", None, XP, [StructField("f", X), StructField("g", INT)])
 S_QUBIT = CheckedStructDef(DefId.fresh(), "Q", None, [], [StructField("q", QUBIT), StructField("n", INT)])
 S_ARR = CheckedStructDef(DefId.fresh(), "A", None, XP, [StructField("xs", array_type(X, 2))])
+
+
+_CALLS = [0]
+
+
+def fresh_idx() -> int:
+    """A parameter index not used by any earlier harness call in this process: hidden state keyed on an index (a cache,
+    say) cannot leak from one explored path into the next, so every counterexample replays in a fresh process."""
+    with NoTracing():
+        _CALLS[0] += 2
+        return _CALLS[0]
 
 
 def leaf(sel, a, b, fa, fb):
@@ -93,7 +105,8 @@ def agrees(t, c, d, params) -> bool:
     h = t.to_hugr(QuantifiedToHugrContext(params))
     if (h.type_bound() == ht.TypeBound.Copyable) != c:
         return False
-    if (d and not c) and not requires_drop(h):
+    rd = requires_drop(h)   # asked for every type, as insert_drops does for every port; only "affine => drop" is demanded
+    if (d and not c) and not rd:
         return False
     return True
 
@@ -104,8 +117,9 @@ def h_layer1(k: int, xs: int, ys: int, ca: bool, da: bool, cb: bool, db: bool) -
     pre: K1 is None or k == K1
     post: _
     """
-    a, b = BoundTypeVar("T0", 0, ca, da), BoundTypeVar("T1", 1, cb, db)
-    params = [TypeParam(0, "T0", ca, da), TypeParam(1, "T1", cb, db)]
+    i0 = fresh_idx()
+    a, b = BoundTypeVar("T0", i0, ca, da), BoundTypeVar("T1", i0 + 1, cb, db)
+    params = [TypeParam(i0, "T0", ca, da), TypeParam(i0 + 1, "T1", cb, db)]
     x = leaf(xs, a, b, (ca, da), (cb, db))
     y = leaf(ys, a, b, (ca, da), (cb, db))
     r = build(k, x, y)
@@ -121,8 +135,9 @@ def h_layer2(k1: int, k2: int, xs: int, ys: int, ca: bool, da: bool, cb: bool, d
     pre: K1 is None or k1 == K1
     post: _
     """
-    a, b = BoundTypeVar("T0", 0, ca, da), BoundTypeVar("T1", 1, cb, db)
-    params = [TypeParam(0, "T0", ca, da), TypeParam(1, "T1", cb, db)]
+    i0 = fresh_idx()
+    a, b = BoundTypeVar("T0", i0, ca, da), BoundTypeVar("T1", i0 + 1, cb, db)
+    params = [TypeParam(i0, "T0", ca, da), TypeParam(i0 + 1, "T1", cb, db)]
     x = leaf(xs, a, b, (ca, da), (cb, db))
     y = leaf(ys, a, b, (ca, da), (cb, db))
     inner = build(k2, x, y)
@@ -133,6 +148,26 @@ def h_layer2(k1: int, k2: int, xs: int, ys: int, ca: bool, da: bool, cb: bool, d
         return True
     t, c, d = r
     return agrees(t, c, d, params)
+
+
+def h_sequence(k1: int, k2: int, c1: bool, d1: bool, c2: bool, d2: bool) -> bool:
+    """
+    pre: 0 <= k1 < NCON and 0 <= k2 < NCON
+    pre: K1 is None or k1 == K1
+    post: _
+    """
+    # two classifications in one session: the same parameter index and name with *different* bounds, one after the
+    # other (what two generic functions compiled in a row look like).  The second answer must not depend on the first.
+    i0 = fresh_idx()
+    for k, c, d in ((k1, c1, d1), (k2, c2, d2)):
+        v = BoundTypeVar("T", i0, c, d)
+        r = build(k, (v, c, d), (INT, True, True))
+        if r is None:
+            continue
+        t, ec, ed = r
+        if not agrees(t, ec, ed, [TypeParam(i0, "T", c, d)]):
+            return False
+    return True
 
 
 def h_existential(k: int, ca: bool, da: bool) -> bool:
